@@ -50,6 +50,8 @@ package manifest
 //@   modifies fresh(mem:string)
 
 //@ func parseManifestStream property C10 arith checked
+//@   replay check m.Err != nil || (forall k int :: 0 <= k && k < len(m.FileStreamSegments) ==> m.FileStreamSegments[k].SegPos <= m.blockOffsets[len(m.Blocks)] && m.FileStreamSegments[k].SegLen <= m.blockOffsets[len(m.Blocks)] - m.FileStreamSegments[k].SegPos)
+//@   replay check m.Err != nil || (forall k int :: 0 <= k && k < len(m.Blocks) ==> m.blockOffsets[k] <= m.blockOffsets[k+1])
 //@   replay hint ". 5d41402abc4b2a76b9719d911017c592+5 0:5:x", ". 5d41402abc4b2a76b9719d911017c592+5 18446744073709551615:2:x", ". 5d41402abc4b2a76b9719d911017c592+9223372036854775807 5d41402abc4b2a76b9719d911017c592+9223372036854775807 5d41402abc4b2a76b9719d911017c592+5 0:3:y", ". 5d41402abc4b2a76b9719d911017c592+5 d41d8cd98f00b204e9800998ecf8427e+0 7d793037a0760186574b0282f2f435e7+5 5:5:foo"
 //@   ghost nb int = 0
 //@   at assign fileTokens#1: set nb = len(m.Blocks)
